@@ -74,6 +74,15 @@ def hex_segments(rings, seg_radius, seg_gap, rotate=False, antialias=True,
             seg += 1
     
     mask = np.asarray(mask)
+
+    if not antialias:
+        # butted segments (seg_gap = 0) share the samples that fall exactly on
+        # a common edge: such a sample belongs to the first segment drawn
+        claimed = np.zeros(shape)
+        for m in mask:
+            m[claimed > 0] = 0
+            claimed += m
+
     if flatten:
         mask = np.sum(mask, axis=0)
     
